@@ -42,3 +42,160 @@ Proof.
       destruct (Z.geb_spec ep n); match goal with |- context[?a <? sp] => destruct (Z.ltb_spec a sp) end;
         try discriminate; intros Hr; injection Hr as <- <-; lia.
 Qed.
+
+(* ---------------- ParseByteRange accepts exactly the RFC 9110 single byte ranges ---------------- *)
+Lemma hasPrefix_strip b p : hasPrefix b p = match strip_prefix p b with Some _ => true | None => false end.
+Proof.
+  revert b; induction p as [|x p IH]; intros b; destruct b as [|y b]; cbn; try reflexivity.
+  destruct (x =? y)%N; [apply IH|reflexivity].
+Qed.
+Lemma strip_skipn b p r : strip_prefix p b = Some r -> skipn (length p) b = r.
+Proof.
+  revert b; induction p as [|x p IH]; intros b; destruct b as [|y b]; cbn; try discriminate; try congruence.
+  destruct (x =? y)%N; [apply IH|discriminate].
+Qed.
+Lemma strip_app p q b : strip_prefix (p ++ q) b = match strip_prefix p b with Some r => strip_prefix q r | None => None end.
+Proof.
+  revert b; induction p as [|x p IH]; intros b; [reflexivity|]. destruct b as [|y b]; cbn; [reflexivity|].
+  destruct (x =? y)%N; [apply IH|reflexivity].
+Qed.
+
+Lemma cut_index d b : cut d b = match indexByte b d with
+                                | Some i => Some (firstn i b, skipn (S i) b)
+                                | None => None
+                                end.
+Proof.
+  induction b as [|c b IH]; cbn; [reflexivity|].
+  destruct (c =? d)%N; [reflexivity|]. rewrite IH. destruct (indexByte b d); reflexivity.
+Qed.
+
+Lemma num_model s : wf_bytes s -> num s = pres_opt (ParseUint 64 s).
+Proof. intros H. unfold num. symmetry. apply parse_exact; [apply ok64|exact H]. Qed.
+
+Theorem range_exact r n : wf_bytes r ->
+  ParseByteRange r n = match spec_range r n with RSat s e => BROk s e | _ => BRErr end.
+Proof.
+  intros Hwf. unfold ParseByteRange, spec_range.
+  change (s2b "bytes=") with (strBytes ++ [61%N]). rewrite strip_app, hasPrefix_strip.
+  destruct (strip_prefix strBytes r) as [b|] eqn:Es; cbn [negb]; [|reflexivity].
+  rewrite (strip_skipn _ _ _ Es).
+  assert (Hb : wf_bytes b) by (rewrite <- (strip_skipn _ _ _ Es); apply wf_skipn; exact Hwf).
+  destruct b as [|c b]; [reflexivity|].
+  replace (strip_prefix [61%N] (c :: b)) with (if (61 =? c)%N then Some b else None) by reflexivity.
+  destruct (N.eqb_spec c 61) as [->|Hc].
+  2:{ cbn [negb]. destruct (61 =? c)%N eqn:E; [apply N.eqb_eq in E; congruence|reflexivity]. }
+  cbn [negb]. change (61 =? 61)%N with true. cbv iota. assert (Hb' : wf_bytes b) by (inversion Hb; assumption).
+  rewrite cut_index. destruct (indexByte b 45%N) as [i|] eqn:Ei; [|reflexivity].
+  destruct i as [|i].
+  - cbn [firstn]. rewrite (num_model _ (wf_skipn 1 b Hb')).
+    destruct (ParseUint 64 (skipn 1 b)) as [v|]; cbn [pres_opt]; [|reflexivity].
+    destruct (Z.leb_spec n 0); destruct (Z.eqb_spec v 0); cbn [orb]; try reflexivity.
+    now rewrite Z.max_comm.
+  - assert (Hne : firstn (S i) b <> []) by (destruct b; [discriminate Ei|discriminate]).
+    destruct (firstn (S i) b) as [|a0 a] eqn:Ef; [contradiction|].
+    rewrite (num_model (a0 :: a)) by (rewrite <- Ef; apply wf_firstn; exact Hb').
+    destruct (ParseUint 64 (a0 :: a)) as [sp|]; cbn [pres_opt]; [|reflexivity].
+    destruct (skipn (S (S i)) b) as [|c2 b2] eqn:Eb.
+    + destruct (Z.geb_spec sp n); destruct (Z.ltb_spec sp n); try lia; reflexivity.
+    + rewrite (num_model (c2 :: b2)) by (rewrite <- Eb; apply wf_skipn; exact Hb').
+      destruct (ParseUint 64 (c2 :: b2)) as [ep|]; cbn [pres_opt].
+      * destruct (Z.geb_spec sp n); destruct (Z.ltb_spec sp n); try lia.
+        -- destruct (Z.ltb_spec ep sp); reflexivity.
+        -- destruct (Z.geb_spec ep n).
+           ++ destruct (Z.ltb_spec (n - 1) sp); destruct (Z.ltb_spec ep sp); try lia. now rewrite Z.min_r by lia.
+           ++ destruct (Z.ltb_spec ep sp); [reflexivity|]. now rewrite Z.min_l by lia.
+      * destruct (Z.geb_spec sp n); reflexivity.
+Qed.
+
+(* ---------------- the FS response decision ---------------- *)
+Lemma date_equiv b : wf_bytes b -> parseRFC1123DateGMT b = spec_time_parse b.
+Proof.
+  intros Hwf. destruct (Nat.eq_dec (length b) 29) as [E|E]; [now apply fast_equals_time_parse|].
+  assert (H1 : parseRFC1123DateGMT b = None).
+  { unfold parseRFC1123DateGMT. destruct (Nat.eqb_spec (length b) 29); [contradiction|reflexivity]. }
+  rewrite H1. symmetry. unfold spec_time_parse.
+  do 29 (destruct b as [|? b]; [reflexivity|]). destruct b; [cbn in E; contradiction|reflexivity].
+Qed.
+
+Lemma ims_equiv ims mtime : wf_bytes ims -> IfModifiedSince ims mtime = negb (not_newer ims mtime).
+Proof.
+  intros Hwf. unfold IfModifiedSince, not_newer. destruct ims as [|c ims]; [reflexivity|].
+  rewrite (date_equiv _ Hwf). destruct (spec_time_parse (c :: ims)) as [t|]; [|reflexivity].
+  destruct (Z.ltb_spec t mtime); destruct (Z.leb_spec mtime t); try lia; reflexivity.
+Qed.
+
+Lemma content_range_eq s e n : contentRangeValue s e n = content_range s e n.
+Proof. reflexivity. Qed.
+
+Section Fs.
+  Variables (size mtime : Z) (compress : bool) (range ims ae : bytes) (compressible : bool) (zlen : Z).
+  Hypothesis Hr : wf_bytes range.
+  Hypothesis Hi : wf_bytes ims.
+
+  (* 304 exactly when the file is not newer than If-Modified-Since (to the second), whatever else is asked *)
+  Theorem status_304_iff ranges isHead :
+    fo_status (fs_handle size mtime ranges compress isHead range ims ae compressible zlen) = 304
+    <-> not_newer ims mtime = true.
+  Proof.
+    unfold fs_handle. rewrite (ims_equiv ims mtime Hi). destruct (not_newer ims mtime); cbn [negb].
+    - split; reflexivity.
+    - split; [|discriminate]. intros H.
+      destruct (ranges && match range with [] => false | _ => true end).
+      + destruct (ParseByteRange range _); cbn in H; discriminate.
+      + cbn in H. discriminate.
+  Qed.
+
+  Lemma nonempty_true (A : Type) (l : bytes) (x : A) (y : A) : l <> [] -> match l with [] => x | _ => y end = y.
+  Proof. destruct l; [contradiction|reflexivity]. Qed.
+
+  (* a request with a Range header is never served from the compressed variant *)
+  Lemma ranged_len : range <> [] ->
+    (if (match range with [] => compress && hasAcceptEncoding ae strGzip | _ => false end) && compressible then zlen else size) = size.
+  Proof. destruct range; [contradiction|reflexivity]. Qed.
+
+  (* 206 with exactly the requested slice and the matching Content-Range, for a satisfiable single range *)
+  Theorem range_206 s e : not_newer ims mtime = false -> range <> [] -> spec_range range size = RSat s e ->
+    fs_handle size mtime true compress false range ims ae compressible zlen =
+    FsOut 206 (content_range s e size) (e - s + 1) (BSlice s (e - s + 1)) false (spec_format_http_date mtime) true
+    /\ 0 <= s /\ s <= e /\ e < size.
+  Proof.
+    intros Hn Hne Hs. unfold fs_handle. rewrite (ims_equiv ims mtime Hi), Hn. cbn [negb].
+    rewrite !(nonempty_true _ range _ _ Hne). cbn [andb]. rewrite (range_exact range size Hr), Hs.
+    split; [reflexivity|].
+    apply (range_invariant range size s e Hr). now rewrite (range_exact range size Hr), Hs.
+  Qed.
+
+  (* 416 for an unsatisfiable (or malformed) Range value *)
+  Theorem range_416 isHead : not_newer ims mtime = false -> range <> [] ->
+    (spec_range range size = RUnsat \/ spec_range range size = RInvalid) ->
+    fo_status (fs_handle size mtime true compress isHead range ims ae compressible zlen) = 416.
+  Proof.
+    intros Hn Hne Hs. unfold fs_handle. rewrite (ims_equiv ims mtime Hi), Hn. cbn [negb].
+    rewrite !(nonempty_true _ range _ _ Hne). cbn [andb]. rewrite (range_exact range size Hr).
+    destruct Hs as [-> | ->]; reflexivity.
+  Qed.
+
+  (* 200 with the full content otherwise: no Range header, or byte ranges disabled *)
+  Theorem full_200 ranges : not_newer ims mtime = false -> (range = [] \/ ranges = false) ->
+    let gz := match range with [] => compress && hasAcceptEncoding ae strGzip | _ => false end && compressible in
+    let len := if gz then zlen else size in
+    fs_handle size mtime ranges compress false range ims ae compressible zlen =
+    FsOut 200 [] len (BSlice 0 len) gz (spec_format_http_date mtime) ranges.
+  Proof using Hi.
+    intros Hn Hc. unfold fs_handle. rewrite (ims_equiv ims mtime Hi), Hn. cbn [negb].
+    destruct Hc as [Hc | Hc]; rewrite Hc; [rewrite andb_false_r|rewrite andb_false_l]; reflexivity.
+  Qed.
+
+  (* HEAD: the same status and headers as GET, and no body *)
+  Theorem head_same ranges :
+    let g := fs_handle size mtime ranges compress false range ims ae compressible zlen in
+    let h := fs_handle size mtime ranges compress true range ims ae compressible zlen in
+    fo_status h = fo_status g /\ fo_contentRange h = fo_contentRange g /\ fo_contentLength h = fo_contentLength g
+    /\ fo_gzip h = fo_gzip g /\ fo_lastModified h = fo_lastModified g /\ fo_acceptRanges h = fo_acceptRanges g
+    /\ fo_body h = BNone.
+  Proof.
+    unfold fs_handle. destruct (IfModifiedSince ims mtime); cbn [negb]; [|repeat split; reflexivity].
+    destruct (ranges && match range with [] => false | _ => true end); [|repeat split; reflexivity].
+    destruct (ParseByteRange range _); repeat split; reflexivity.
+  Qed.
+End Fs.
